@@ -9,9 +9,12 @@
 package c01
 
 import (
+	"bytes"
 	"encoding/base64"
 	"encoding/json"
 	"fmt"
+	"io"
+	"net/http"
 	"net/url"
 	"reflect"
 	"sort"
@@ -21,6 +24,7 @@ import (
 	"time"
 
 	"github.com/nuts-foundation/go-did/vc"
+	"github.com/nuts-foundation/nuts-node/http/client"
 	"github.com/nuts-foundation/nuts-node/vcr"
 	"verif/lib/ev"
 	"verif/lib/iamflow"
@@ -457,6 +461,12 @@ func TestCheck(t *testing.T) {
 	r.Assume("did:web issuers on one in-process node (did:web documents carry no history, so key add/remove *over time* is not exercised; deactivation is)")
 	r.Assume("JSON-LD equality up to: member order, set order, single-element arrays, @value wrapping, id/@id and type/@type aliases")
 
+	// did:web documents of harness-owned issuers are "hosted" by a scripted transport at the node's did:web resolver seam
+	// (installed before the node builds its resolvers); everything else goes to the original transport
+	hosted := &didHost{docs: map[string][]byte{}, orig: client.DefaultCachingTransport}
+	client.DefaultCachingTransport = hosted
+	defer func() { client.DefaultCachingTransport = hosted.orig }()
+
 	w := iamflow.NewWorld(t, iamflow.Options{})
 	n := w.N
 	issuer, holder := w.Verifier, w.Client // verifier subject acts as issuer; client subject is the credential subject/holder
@@ -709,6 +719,65 @@ func TestCheck(t *testing.T) {
 		grid("forged-issuer-jwt/"+name, false, ok, msg, nil)
 	}
 
+	// hosted did:web issuers: the signing key must belong to the issuer's DID exactly - not to a DID whose text merely starts with it
+	webRoot := hosted.identity("did:web:issuer.example", "https://issuer.example/.well-known/did.json")
+	webSub := hosted.identity("did:web:issuer.example:mallory", "https://issuer.example/mallory/did.json")
+	webAlice := hosted.identity("did:web:issuer.example:alice", "https://issuer.example/alice/did.json")
+	webAlice2 := hosted.identity("did:web:issuer.example:alice2", "https://issuer.example/alice2/did.json")
+	webVC := func(iss string, signer *iamflow.Holder) json.RawMessage {
+		claims := map[string]any{"iss": iss, "sub": h2.DID, "nbf": time.Now().Add(-time.Minute).Unix(), "jti": iss + "#c-" + signer.DID[len(signer.DID)-5:],
+			"vc": map[string]any{"@context": []string{"https://www.w3.org/2018/credentials/v1", "https://nuts.nl/credentials/v1"},
+				"type":              []string{"VerifiableCredential", "NutsOrganizationCredential"},
+				"credentialSubject": map[string]any{"id": h2.DID, "organization": map[string]any{"name": "Hosted", "city": "Web"}}}}
+		b, _ := json.Marshal(signer.SignJWT(map[string]any{"alg": "ES256", "typ": "JWT", "kid": signer.KID}, claims))
+		return b
+	}
+	for _, g := range []struct {
+		name   string
+		iss    string
+		signer *iamflow.Holder
+		want   bool
+	}{
+		{"genuine-root", webRoot.DID, webRoot, true},
+		{"genuine-subpath", webAlice.DID, webAlice, true},
+		{"kid-of-subpath-did-of-issuer", webRoot.DID, webSub, false},
+		{"kid-of-did-extending-issuer-text", webAlice.DID, webAlice2, false},
+		{"kid-of-parent-did", webSub.DID, webRoot, false},
+	} {
+		ok, msg, _ := verify(n, "vc", webVC(g.iss, g.signer), "")
+		if g.want && !ok {
+			r.Fatalf("calibration: credential of a hosted did:web issuer does not verify (%s): %s", g.name, msg)
+		}
+		grid("hosted-didweb/"+g.name, g.want, ok, msg, map[string]any{"iss": g.iss, "kid": g.signer.KID})
+	}
+	r.Extra("hosted_did_documents_served", hosted.served())
+
+	// a holder-signed presentation mixing a proof-less self-attested credential with other credentials: the others are still checked
+	selfAttested, _ := json.Marshal(map[string]any{"@context": []string{"https://www.w3.org/2018/credentials/v1"}, "type": []string{"VerifiableCredential"},
+		"id": h2.DID + "#self-1", "issuer": h2.DID, "issuanceDate": time.Now().Add(-time.Minute).UTC().Format(time.RFC3339), "credentialSubject": map[string]any{"id": h2.DID}})
+	tampered := json.RawMessage(strings.Replace(string(ownCred), "Caretown", "Tampertown", 1))
+	for _, g := range []struct {
+		name  string
+		creds []json.RawMessage
+		want  bool
+	}{
+		{"self-attested-then-genuine", []json.RawMessage{selfAttested, ownCred}, true},
+		{"self-attested-then-tampered", []json.RawMessage{selfAttested, tampered}, false},
+		{"tampered-then-self-attested", []json.RawMessage{tampered, selfAttested}, false},
+		{"self-attested-then-tampered-then-genuine", []json.RawMessage{selfAttested, tampered, ownCred}, false},
+	} {
+		vp := h2.SignVP(iamflow.VP{NotBefore: time.Now().Add(-time.Minute), Expires: time.Now().Add(time.Hour), Credentials: g.creds})
+		b, _ := json.Marshal(vp)
+		ok, msg, _ := verify(n, "vp", b, "")
+		if g.want != ok && g.want {
+			// the permissive direction (self-attested credentials in a presentation) is not something the statement demands
+			r.Unspecified("self-attested-credential-in-presentation-refused")
+			fmt.Printf("NOTE: property=C01 presentation with a proof-less self-attested credential refused: %.200s\n", msg)
+			continue
+		}
+		grid("vp-jwt/"+g.name, g.want, ok, msg, map[string]any{"document": vp})
+	}
+
 	// trust
 	vcrEngine := node.Engine[vcr.VCR](n)
 	if vcrEngine == nil {
@@ -800,6 +869,50 @@ func TestCheck(t *testing.T) {
 
 	r.Extra("artefacts", len(arts))
 	r.Extra("distinct_operators_by_format", r.DistinctN("operators"))
+}
+
+// didHost serves did:web documents of harness-owned identities at the node's HTTP client seam.
+type didHost struct {
+	mu   sync.Mutex
+	docs map[string][]byte
+	orig http.RoundTripper
+	hits int
+}
+
+func (h *didHost) RoundTrip(req *http.Request) (*http.Response, error) {
+	h.mu.Lock()
+	body, ok := h.docs[req.URL.String()]
+	if ok {
+		h.hits++
+	}
+	h.mu.Unlock()
+	if ok {
+		return &http.Response{StatusCode: 200, Status: "200 OK", Proto: "HTTP/1.1", ProtoMajor: 1, ProtoMinor: 1, Header: http.Header{"Content-Type": {"application/json"}},
+			Body: io.NopCloser(bytes.NewReader(body)), ContentLength: int64(len(body)), Request: req}, nil
+	}
+	if req.URL.Hostname() == "issuer.example" {
+		return &http.Response{StatusCode: 404, Status: "404 Not Found", Proto: "HTTP/1.1", ProtoMajor: 1, ProtoMinor: 1, Header: http.Header{}, Body: io.NopCloser(strings.NewReader("")), Request: req}, nil
+	}
+	return h.orig.RoundTrip(req)
+}
+
+func (h *didHost) served() int { h.mu.Lock(); defer h.mu.Unlock(); return h.hits }
+
+// identity creates a key pair whose did:web document is served at docURL.
+func (h *didHost) identity(did, docURL string) *iamflow.Holder {
+	id := iamflow.NewHolder()
+	id.DID, id.KID = did, did+"#0"
+	doc := map[string]any{
+		"@context":           []string{"https://www.w3.org/ns/did/v1", "https://w3id.org/security/suites/jws-2020/v1"},
+		"id":                 did,
+		"verificationMethod": []any{map[string]any{"id": id.KID, "type": "JsonWebKey2020", "controller": did, "publicKeyJwk": id.JWK}},
+		"assertionMethod":    []string{id.KID}, "authentication": []string{id.KID}, "capabilityInvocation": []string{id.KID},
+	}
+	b, _ := json.Marshal(doc)
+	h.mu.Lock()
+	h.docs[docURL] = b
+	h.mu.Unlock()
+	return id
 }
 
 func mkVPNoFail(n *node.Node, signer string, creds []json.RawMessage) json.RawMessage {
